@@ -109,7 +109,15 @@ def run(R):
 def outif_table(m):
     d = m.global_assign("outif")
     if not isinstance(d, ast.Dict):
-        raise pyfacts.AnalysisError("unitcell.outif is not a dict literal")
+        # built some other way ( dict((f.__name__, f) for f in (P, A, ...)) ): evaluate the expression
+        from engine import vn_py
+        try:
+            val = vn_py.Interp({"unitcell": m}).expr(m, d, {})
+        except Exception as ex:
+            raise pyfacts.AnalysisError("unitcell.outif is neither a dict literal nor an expression the interpreter can evaluate: %s" % ex)
+        if not (isinstance(val, dict) and all(isinstance(k, str) and isinstance(v, tuple) and len(v) == 3 and v[0] == "func" for k, v in val.items())):
+            raise pyfacts.AnalysisError("unitcell.outif does not evaluate to a {letter: function} dictionary")
+        return {k: (v[2].name, d.lineno) for k, v in val.items()}
     out = {}
     for k, v in zip(d.keys, d.values):
         if not (isinstance(k, ast.Constant) and isinstance(v, ast.Name)):
@@ -170,7 +178,7 @@ def r2(R, m):
 def r3(R, m):
     R.rule("C03.R3", "makerings: first reflection seeds the first ring, the loop visits all the others, every path appends the "
                      "reflection to exactly one ring and a new ring is keyed by its own d-star")
-    fn = m.func("unitcell.makerings")
+    fn = m.nfunc("unitcell.makerings")     # normal form: index / while loops read as 'for <item> in <sequence>'
     loops = [n for n in ast.walk(fn) if isinstance(n, ast.For)]
     R.shape(len(loops) == 1, "C03.R3", REL, "unitcell.makerings", "the loop over the sorted reflections")
     lp = loops[0]
@@ -246,8 +254,7 @@ def r4(R, m):
         R.check(src(a.value.args[0]).replace(" ", "") == "[ds,(h,k,l)]", "C03.R4", REL, a.lineno, "unitcell.gethkls", "entry [ds, (h, k, l)]",
                 "the stored d-star or indices are not those that were tested")
     dsa = [s for s in ast.walk(fn) if isinstance(s, ast.Assign) and src(s.targets[0]) == "ds"]
-    R.check(len(dsa) == 1 and src(dsa[0].value).replace(" ", "") == "self.ds([h,k,l])", "C03.R4", REL, fn.lineno, "unitcell.gethkls",
-            "ds = self.ds([h, k, l])", "the tested d-star is not that of the hkl being visited")
+    R.shape(len(dsa) == 1, "C03.R4", REL, "unitcell.gethkls", "the single assignment of ds")
     init_l = [s for s in fn.body if isinstance(s, ast.Assign) and src(s.targets[0]) == "l"]
     init_hk = [s for s in fn.body if isinstance(s, ast.Assign) and "h" in [src(t) for t in s.targets] and "k" in [src(t) for t in s.targets]]
     R.check(len(init_l) == 1 and src(init_l[0].value) == "1" and len(init_hk) == 1 and src(init_hk[0].value) == "0", "C03.R4", REL, fn.lineno,
@@ -275,6 +282,16 @@ def r4(R, m):
     g = vn_py.R(got)
     R.check(vn.equal(g * g, want2), "C03.R4", REL, dsf.lineno, "unitcell.ds", "ds(h)^2 == h . gi . h (symmetric gi, symbolic h)",
             "d-star is not the length from the reciprocal metric tensor: ds(h)^2 = %s" % vn_py._short(g * g))
+    # the d-star tested in gethkls is that of the hkl being visited: value of the right-hand side of 'ds = ...' (a call of self.ds or
+    # the same expression written out) for symbolic h, k, l
+    rhs = pyfacts.resolved(fn, dsa[0].value, 3, keep=("self", "h", "k", "l", "np", "math"))
+    try:
+        val = I.expr(m, rhs, {"self": obj, "h": H[0], "k": H[1], "l": H[2]})
+    except Exception as ex:
+        raise pyfacts.AnalysisError("C03.R4: cannot value-number the d-star computed in gethkls (%s): %s" % (src(dsa[0].value)[:60], ex))
+    v = vn_py.R(val)
+    R.check(vn.equal(v * v, want2), "C03.R4", REL, dsa[0].lineno, "unitcell.gethkls", "ds = d-star of (h, k, l): %s" % src(dsa[0].value)[:60],
+            "the tested d-star is not that of the hkl being visited")
 
 
 def r5(R, m):
